@@ -7,7 +7,7 @@ CONSTANTS
   Kv <- TraceKv
   Changes <- TraceChanges
   MaxPend = 100000
-  NoSpace <- None
+  NoSpace <- TraceNoSpace
   Dev <- None
   Budget <- TraceBudget
 INVARIANT ObsIdxFollowsStore
